@@ -15,6 +15,8 @@ Case payloads (space separated fields):
   Result `released=<n> end=kill|fin`.
 * `I <bos><boe> <bpops> <script> <trace> <entry-hex> <console-line-hex>,…` — a session of the command line
   interpreter (`cli/tool/interpret.go`): entry file, then console lines, one thread. Same model function as `D`.
+* `Y <prog-hex>` — known finding `debugger-snapshot-cyclic-value`: the debugged run (in a child process) dies;
+  `spec=` is the plain outcome.
 * `Z <n> <bpops> <prog-hex>` — `n` threads run while `StopThreads` is called over and over: every thread ends
   (`stop_releases_all` for the suspended ones, the others finish). Result `ended=<n>`.
 * `L <mode> <bos><boe> <bpops> <script> <trace> <lib-hex> <main-hex>` — library and main program loaded in
@@ -131,6 +133,11 @@ def runCase (payload : String) : String :=
     -- command line interpreter session: the same model function on the recorded visit trace (with the
     -- `f` = RecordThreadFinished events after the entry file and after every console line)
     caseD ["1", flags, bpops, script, "poll", "0", trace, "-"]
+  | ["Y", _prog] =>
+    -- known finding: attaching the debugger kills the process on a program holding a self-containing
+    -- value and calling a function (the scope snapshot of every call recurses for ever); the property
+    -- demands the plain outcome
+    "DIES-with-debugger-attached\tkf=debugger-snapshot-cyclic-value\tspec=same=1 vis=1 susp=-\tnt=1"
   | ["Z", n, _bpops, _prog] => s!"ended={n}\tnt=1"
   | "L" :: _mode :: flags :: bpops :: script :: trace :: _lib :: [_main] =>
     -- life-cycle cases: the model is the same function of (visit trace while attached, break
